@@ -250,6 +250,15 @@ class Registry:
             if path:
                 state.paths[r.oid] = path
             return r
+        if typ.startswith("cdict:"):
+            # dict with a concrete key set:  cdict:key=type,key=type
+            o = HObj("dict")
+            o.d = {}
+            r = state.alloc(o)
+            for item in _split_top(typ[6:], ","):
+                k, t = item.split("=", 1)
+                o.d[k] = self.fresh(ex, state, t, name + "_" + k)
+            return r
         if typ.startswith("dict:"):
             from . import models
             return models.fresh_dict(ex, state, typ[5:], name, path)
@@ -333,6 +342,8 @@ def _sym_sort(typ):
         return z3.IntSort()
     if typ == "bool":
         return z3.BoolSort()
+    if typ == "real":
+        return z3.RealSort()
     if typ == "bytes":
         return BytesSort
     if typ == "str":
@@ -350,6 +361,8 @@ def _wrap_sym(typ, t):
         return VInt(t)
     if typ == "bool":
         return VBool(t)
+    if typ == "real":
+        return VReal(t)
     if typ == "bytes":
         return VBytes(t)
     if typ == "str":
@@ -366,6 +379,10 @@ def _unwrap_sym(typ, v):
         return v.t
     if typ == "bool" and isinstance(v, VBool):
         return v.t
+    if typ == "real" and isinstance(v, VReal):
+        return v.t
+    if typ == "real" and isinstance(v, VInt):
+        return z3.ToReal(v.t)
     if typ == "bytes" and isinstance(v, VBytes):
         return v.t
     if typ == "str" and isinstance(v, VStr):
